@@ -2,7 +2,11 @@
 from framework import Case
 
 PROP = 'C08'
-TRANSLATORS = ['ugraph']
+# tools/rs2lean_ugraph.py: index / weight widths -> Gen/UGraphTypes.lean; tools/rs2lean_ugraphfns.py: the wrapper code of
+# UltraMatrixGraph, function by function -> Gen/UGraphFns.lean; Props/C08Gen.lean proves every generated definition equal to the
+# hand model the C08 theorems are about (on every well-formed state) and transports the theorems to the generated step function
+TRANSLATORS = ['ugraph', 'ugraphfns']
+EXTRA_THEOREM_MODULES = ['DcVerif.Props.C08Gen']
 RULE = ('histories of 1-80 ops (thorough: up to 250) over add/addroot/rmnode/edge/edgew/rmedge/clear, built through every '
         'public constructor with initial capacities 0-4 (forces matrix growth 0/1/2/3/4 -> 4 -> 8 -> 16 ...); targets drawn '
         'mostly from the indices returned so far (live or removed, so that index reuse after removals, duplicate edges, '
@@ -16,7 +20,9 @@ ASSUMPTIONS = ['node values and weights < 2^64, fewer than 2^32 nodes (NodeIndex
                'petgraph 0.7.1 MatrixGraph is modelled (id reuse, neighbour order, nb_edges), matrix growth modelled as identity',
                'hash-map iteration order is external nondeterminism: get_all_nodes / get_all_edges are compared sorted',
                'the model mirrors the code with fixes/F2-remove-edge.diff and fixes/F3-number-edges.diff applied']
-TRUSTED_EXTRA = ['petgraph 0.7.1 MatrixGraph/IdStorage behaviour is modelled, not proved (exercised by the correspondence run)']
+TRUSTED_EXTRA = ['petgraph 0.7.1 MatrixGraph/IdStorage behaviour is modelled, not proved (exercised by the correspondence run)',
+                 'tools/rs2lean_ugraphfns.py for the fragment it translates (ultragraph wrapper code -> Gen/UGraphFns.lean; fail-closed); '
+                 'the wrapper functions of Model/UGraph.lean are proved equal to the generated definitions (Props/C08Gen.lean)']
 
 CTORS = ['new', 'default', 'cap', 'matrix', 'storage', 'storage-new']
 OBS0 = ['size', 'empty', 'nnodes', 'nedges', 'nodes', 'edges', 'hasroot', 'rootnode', 'rootidx', 'lastidx']
